@@ -11,7 +11,7 @@ EXPLANATION = (
     "basename; (G3) the per-level specs must not be combined as a plain disjunction, which cannot express a deeper negation "
     "overriding a shallower match; (G4) patterns are compiled with pathspec's gitignore factory; (G5) the rule lines of an "
     "ignore file reach that factory in file order with their repetitions (no set / sorted / dict.fromkeys / reversed on the "
-    "way: the last matching line wins in git); (cache) a spec chain that is stored in a memo table, or handed out by a "
+    "way: the last matching line wins in git); (G6) the os.walk loop carries no variable from one directory to the next (the chain of a directory is computed from that directory); (cache) a spec chain that is stored in a memo table, or handed out by a "
     "memoising method, is never changed in place (it would be shared by all directories of a walk). Agreement with `git "
     "check-ignore` on concrete trees is a differential, runtime question and is not decided. G2/G3 fail today at both sites: "
     "genuine, recorded findings (F-16)."
@@ -27,3 +27,5 @@ def run(ctx: Ctx) -> None:
     ctx.rule("R-RESOLVE-cache", "values held in memo tables (or returned by memoising methods) are not mutated in place")
     ctx.run(resolve.check_gitignore)
     ctx.run(resolve.check_cached_values_not_mutated)
+    ctx.rule("R-GITIGNORE-G6", "the directory walk carries no filter state from one directory to the next")
+    ctx.run(resolve.check_walk_is_per_directory)
